@@ -55,7 +55,11 @@ func GenDatasetSized(t *rapid.T, large bool) Dataset {
 		trees = append(trees, gen.Perturb(t, base, rapid.IntRange(1, 4).Draw(t, "npert"), false, gen.Arbitrary))
 	}
 	var boots []*ref.Node
-	for i := 0; i < 5; i++ {
+	nboot := 5
+	if rapid.IntRange(0, 4).Draw(t, "manyboots") == 2 {
+		nboot = rapid.IntRange(40, 120).Draw(t, "nboots") // results of several threads complete out of order
+	}
+	for i := 0; i < nboot; i++ {
 		boots = append(boots, gen.Perturb(t, base, rapid.IntRange(0, 5).Draw(t, "nbpert"), false, gen.Arbitrary))
 	}
 	write := func(ms []*ref.Node) string {
